@@ -414,6 +414,10 @@ class Expander:
         for modname, m in self.modules.items():
             if modname.startswith("_fixture"):
                 continue
+            inline_new_constants(m, self.modules)
+        for modname, m in self.modules.items():
+            if modname.startswith("_fixture"):
+                continue
             respell_imports(m)
         for modname, m in self.modules.items():
             if modname.startswith("_fixture"):
@@ -516,6 +520,125 @@ def collapse_copies(tree: ast.AST):
                         ast.fix_missing_locations(blk[i])
                         continue
                     i += 1
+
+
+_KNOWN_CONST = None
+
+
+def _new_constants_of(m) -> Dict[str, ast.AST]:
+    """name -> fully resolved literal (no names left) of the module-level constants of m that are new to the reviewed tree."""
+    global _KNOWN_CONST
+    if _KNOWN_CONST is None:
+        try:
+            with open(os.path.join(_HERE, "known_constants.json")) as fh:
+                _KNOWN_CONST = json.load(fh)
+        except OSError:
+            _KNOWN_CONST = {}
+    if m.relpath not in _KNOWN_CONST:
+        return {}
+    known = set(_KNOWN_CONST.get(m.relpath, ()))
+    binds: Dict[str, List[ast.AST]] = {}
+    for st in m.tree.body:
+        if isinstance(st, ast.Assign) and len(st.targets) == 1 and isinstance(st.targets[0], ast.Name):
+            binds.setdefault(st.targets[0].id, []).append(st.value)
+        elif isinstance(st, ast.AnnAssign) and isinstance(st.target, ast.Name) and st.value is not None:
+            binds.setdefault(st.target.id, []).append(st.value)
+    glob: Set[str] = set()
+    for x in ast.walk(m.tree):
+        if isinstance(x, (ast.Global, ast.Nonlocal)):
+            glob |= set(x.names)
+
+    def resolve(v, seen=()):
+        if isinstance(v, ast.Constant):
+            return _clone(v)
+        if isinstance(v, (ast.Tuple, ast.List)):
+            es = [resolve(e_, seen) for e_ in v.elts]
+            return None if any(e_ is None for e_ in es) else type(v)(elts=es, ctx=ast.Load())
+        if isinstance(v, ast.UnaryOp) and isinstance(v.op, (ast.USub, ast.UAdd)):
+            o = resolve(v.operand, seen)
+            return None if o is None else ast.UnaryOp(op=v.op, operand=o)
+        if isinstance(v, ast.BinOp) and isinstance(v.op, (ast.Add, ast.Sub, ast.Mult, ast.Div, ast.FloorDiv, ast.Pow)):
+            l_, r_ = resolve(v.left, seen), resolve(v.right, seen)
+            return None if l_ is None or r_ is None else ast.BinOp(left=l_, op=v.op, right=r_)
+        if isinstance(v, ast.Name) and v.id in binds and len(binds[v.id]) == 1 and v.id not in seen and v.id not in glob:
+            return resolve(binds[v.id][0], seen + (v.id,))
+        return None
+    out = {}
+    for name, vs in binds.items():
+        if name in known or len(vs) != 1 or name in glob or name.startswith("__"):
+            continue
+        r_ = resolve(vs[0])
+        if r_ is not None:
+            out[name] = r_
+    return out
+
+
+def inline_new_constants(m, modules=None) -> int:
+    """A module-level `NAME = <literal>` (number, string, None, tuple / list of such, arithmetic over such and over other
+    module constants) whose NAME the reviewed tree does not have (sa/known_constants.json), bound once and never declared
+    global: its uses are replaced by the literal ("magic value hoisted into a named constant" is the same program)."""
+    consts: Dict[str, ast.AST] = dict(_new_constants_of(m))
+    # constants of other modules of the package, imported by name
+    if modules:
+        is_pkg = m.path.endswith("__init__.py")
+        for local, (fq, _stmt) in import_bindings(m.tree, m.name, is_pkg).items():
+            if "." in fq:
+                mod_, nm_ = fq.rsplit(".", 1)
+                om = modules.get(mod_)
+                if om is not None and om is not m:
+                    oc = _new_constants_of(om)
+                    if nm_ in oc and local not in consts:
+                        consts[local] = oc[nm_]
+    if not consts:
+        return 0
+    count = [0]
+
+    class R(ast.NodeTransformer):
+        def __init__(self):
+            self.shadow: List[Set[str]] = [set()]
+
+        def visit_FunctionDef(self, node):
+            names = {a.arg for a in node.args.args + node.args.kwonlyargs + node.args.posonlyargs}
+            for a in (node.args.vararg, node.args.kwarg):
+                if a is not None:
+                    names.add(a.arg)
+            for x in ast.walk(node):
+                if isinstance(x, ast.Name) and isinstance(x.ctx, (ast.Store, ast.Del)):
+                    names.add(x.id)
+                elif isinstance(x, ast.arg):
+                    names.add(x.arg)
+            node.args.defaults = [self.visit(d) for d in node.args.defaults]
+            node.args.kw_defaults = [self.visit(d) if d is not None else None for d in node.args.kw_defaults]
+            self.shadow.append(self.shadow[-1] | names)
+            node.body = [self.visit(b) for b in node.body]
+            self.shadow.pop()
+            return node
+
+        def visit_Lambda(self, node):
+            self.shadow.append(self.shadow[-1] | {a.arg for a in node.args.args + node.args.kwonlyargs})
+            self.generic_visit(node)
+            self.shadow.pop()
+            return node
+
+        def visit_Name(self, node):
+            if isinstance(node.ctx, ast.Load) and node.id in consts and node.id not in self.shadow[-1]:
+                count[0] += 1
+                new = _clone(consts[node.id])
+                for x in ast.walk(new):
+                    ast.copy_location(x, node)
+                return self.visit(new) if not isinstance(new, ast.Constant) else new
+            return node
+    r = R()
+    new_body = []
+    for st in m.tree.body:
+        if isinstance(st, (ast.Assign, ast.AnnAssign)) and any(isinstance(t, ast.Name) and t.id in consts for t in (st.targets if isinstance(st, ast.Assign) else [st.target])):
+            st.value = r.visit(st.value)
+            new_body.append(st)
+        else:
+            new_body.append(r.visit(st))
+    m.tree.body = new_body
+    ast.fix_missing_locations(m.tree)
+    return count[0]
 
 
 def split_chained_assignments(tree: ast.AST):
